@@ -1,6 +1,6 @@
 (* C15 — property theorems only.  Bodies live in Proofs.v. *)
 From Coq Require Import PArith ZArith List Bool.
-From EsVerif.C15 Require Import Model Spec Proofs Complete Alias NoWrite Sequence Refine Mono Verdict Exec ExecProofs.
+From EsVerif.C15 Require Import Model Spec Proofs Complete Alias NoWrite Sequence Refine Mono Verdict FlowIns Exec ExecProofs.
 From EsVerif.Common Require Import Bytes.
 From Coq.Strings Require Import Byte.
 Import ListNotations.
@@ -265,3 +265,22 @@ Example C15_verdict_nonvacuous :
   /\ verdict_spec false false [] [] [(a, b)] = 2%Z /\ verdict_spec false true [] [] [(a, b)] = 3%Z
   /\ verdict_spec true true [] [] [(a, a)] = 3%Z.
 Proof. vm_compute. repeat split; reflexivity. Qed.
+
+(* Round 6.  A flow-insensitive may-alias CERTIFICATE: E (name -> set of parameters) contains every parameter in its own set and is
+   closed under every `x := MayAlias ys` statement anywhere in the skeleton (fi_ok, a boolean check evaluated on every run for every
+   extracted skeleton).  Then in EVERY state reached by ANY execution -- also one cut short -- a name that refers to the buffer of a
+   parameter has a parameter with that buffer in E x.  E is what the alias trace of the real calls (sys.settrace) is compared with. *)
+Theorem C15_flow_insensitive_alias_sound : forall sk ps E,
+  fi_ok sk ps E = true ->
+  forall st st', params_bound ps st -> others_apart ps st ->
+  exec sk st st' ->
+  forall x b, env st' x = Some b ->
+  (exists p, In p ps /\ env st p = Some b) ->
+  exists q, In q ps /\ env st q = Some b /\ In q (lookup E x).
+Proof. exact fi_ok_sound. Qed.
+
+Example C15_flow_insensitive_nonvacuous :
+  fi_ok [SBind 2 (MayAlias [1]); SIf [SBind 3 (MayAlias [2])] [SBind 3 Fresh]; SBind 4 (MayAlias [3])]%positive [1%positive]
+        [(1, [1]); (2, [1]); (3, [1]); (4, [1])]%positive = true
+  /\ fi_ok [SBind 2 (MayAlias [1])]%positive [1%positive] [(1, [1])]%positive = false.
+Proof. exact fi_ok_example. Qed.
